@@ -37,9 +37,9 @@ def tokenise(s):
     return out
 
 
-def tag_text(t, closing):
+def tag_text(t, closing, upper=False):
     if t["named"]:
-        body = t["name"]
+        body = t["name"].upper() if upper else t["name"]
     else:
         parts = []
         if t["fg"] != "none":
@@ -61,9 +61,9 @@ def markup(msg):
         elif k == "esc":
             out.append("\\<")
         elif k == "open":
-            out.append(tag_text(g["tag"], False))
+            out.append(tag_text(g["tag"], False, g.get("up", False)))
         elif k == "close":
-            out.append(tag_text(g["tag"], True))
+            out.append(tag_text(g["tag"], True, g.get("up", False)))
         elif k == "closeany":
             out.append("</>")
         elif k == "unk":
@@ -169,6 +169,34 @@ def _hows():
         "dflt-IO.write/noansi": (False, False, lambda s, tags, base: io_write(dansi)(s, tags, base)),
     }
     DEFAULT_HOWS.update(dflt)
+
+    def null_io(meth):
+        def f(s, tags, base):
+            from clikit.io import NullIO
+
+            Rec = G._rec_class()
+            io = NullIO()
+            for o in (io.output, io.error_output):
+                o.set_stream(Rec(o.stream))
+            getattr(io, meth)(s)
+            return (io.output if meth == "write" else io.error_output).stream.text()
+        return f
+
+    def null_out(s, tags, base):
+        Rec = G._rec_class()
+        rec = Rec(BufferedOutputStream())
+        Output(rec).write(s)  # the default formatter of an output
+        return rec.text()
+
+    from clikit.formatter import NullFormatter
+
+    NULL_HOWS.update({
+        "N.format": (False, False, lambda s, tags, base: NullFormatter().format(s)),
+        "N.rm_format": (False, False, lambda s, tags, base: NullFormatter().remove_format(s)),
+        "O.write/null": (False, False, null_out),
+        "NullIO.write": (False, False, null_io("write")),
+        "NullIO.error": (False, False, null_io("error")),
+    })
     return {
         # decorated
         "A.format": (True, True, lambda s, tags, base: ansi(tags).format(s, st(base)) if base else ansi(tags).format(s)),
@@ -196,6 +224,22 @@ def _hows():
 
 _HOWS = None
 DEFAULT_HOWS = {}
+NULL_HOWS = {}
+
+
+def literal_tags(msg):
+    """the message as a formatter without any registered style must see it: every tag is an unknown one"""
+    out = []
+    for g in msg:
+        if g["k"] in ("open", "close"):
+            out.append({"k": "unk", "lit": list(tag_text(g["tag"], g["k"] == "close", g.get("up", False)))})
+        elif g["k"] == "closeany":
+            out.append({"k": "unk", "lit": list("</>")})
+        elif g["k"] == "esc":  # no tag engine, no escape: both characters stay
+            out.append({"k": "unk", "lit": ["\\", "<"]})
+        else:
+            out.append(g)
+    return out
 
 
 def default_tags():
@@ -215,16 +259,23 @@ def hows(col, with_base):
     if _HOWS is None:
         _HOWS = _hows()
         _HOWS.update(DEFAULT_HOWS)
+        _HOWS.update(NULL_HOWS)
+    if with_base == "null":
+        return sorted(NULL_HOWS)
     if with_base == "default":
         return [h for h, (c, _b, _f) in sorted(DEFAULT_HOWS.items()) if c == col]
-    return [h for h, (c, b, _f) in sorted(_HOWS.items()) if c == col and (b or not with_base) and h not in DEFAULT_HOWS]
+    return [h for h, (c, b, _f) in sorted(_HOWS.items()) if c == col and (b or not with_base) and h not in DEFAULT_HOWS and h not in NULL_HOWS]
 
 
 def render_event(msg, base, col, how, extra_tags=()):
     """one MarkupTrace event: the real rendering of msg obtained through `how`"""
     hows(True, False)
     tags = named_tags(msg) + [t for t in extra_tags if t["name"] not in [x["name"] for x in named_tags(msg)]]
-    ev = {"msg": msg, "base": base, "col": col, "how": how, "res": "ok", "toks": []}
+    ev = {"msg": msg, "base": base, "col": col, "how": how, "claim": "all", "res": "ok", "toks": []}
+    if how in NULL_HOWS:
+        # nothing is registered on this route: every tag is plain text
+        ev["msg"] = msg = literal_tags(msg)
+        ev["claim"] = "text"  # no tag engine on this route: the A-layer's token stream is not its model
     try:
         ev["toks"] = tokenise(_HOWS[how][2](markup(msg), tags, base))
     except Exception as e:  # noqa: every exception kind is an observation
@@ -237,7 +288,8 @@ def way_event(way, style, msg):
     from clikit.formatter import AnsiFormatter
 
     tagb = [g["tag"] for g in msg if g["k"] == "open" and g["tag"]["name"] == "tb"]
-    ev = {"msg": msg, "base": [style] if way == 3 else [], "col": True, "how": "way%d" % way, "res": "ok", "toks": []}
+    ev = {"msg": msg, "base": [style] if way == 3 else [], "col": True, "how": "way%d" % way, "claim": "all", "res": "ok",
+          "toks": []}
     try:
         if way in (1, 2):
             r = build(AnsiFormatter, [style] + tagb).format(markup(msg))
@@ -263,41 +315,58 @@ def hist_msg(way, attrs):
 
 
 def run_history(case):
-    """case = {init: {fg, bg, at}, ops: [set(f, c, b) | use(way, col[, via])]}: every operation acts on the same Style
-    object; returns one MarkupTrace event per use"""
+    """case = {init: {fg, bg, at}, ops: [set(f, c, b) | use(way, col[, same][, via])]}: every operation acts on the same
+    Style object; same=True: the use goes to the formatter of the earlier uses (add_style again / format again), for
+    way 1 a new formatter is built from the one StyleSet object that holds the style.  One MarkupTrace event per use
+    (a setter that fails is an event too)."""
     from clikit.api.formatter import Style, StyleSet
     from clikit.formatter import AnsiFormatter, PlainFormatter
     from clikit.io import BufferedIO
 
     attrs = {"fg": case["init"]["fg"], "bg": case["init"]["bg"], "at": list(case["init"]["at"])}
-    obj = Style("ts")
-    if attrs["fg"] != "none":
-        obj.fg(attrs["fg"])
-    if attrs["bg"] != "none":
-        obj.bg(attrs["bg"])
-    for a in attrs["at"]:
-        getattr(obj, ATTR_METHOD[a])()
     evs = []
+
+    def failed(how, e):
+        evs.append({"msg": [], "base": [], "col": False, "how": how, "claim": "all", "res": type(e).__name__, "toks": []})
+
+    try:
+        obj = Style("ts")
+        if attrs["fg"] != "none":
+            obj.fg(attrs["fg"])
+        if attrs["bg"] != "none":
+            obj.bg(attrs["bg"])
+        for a in attrs["at"]:
+            getattr(obj, ATTR_METHOD[a])()
+        sset = StyleSet([obj])
+    except Exception as e:  # noqa
+        failed("hist-init", e)
+        return evs
+    kept = {}
     for op in case["ops"]:
         if op["op"] == "set":
-            if op["f"] in ("fg", "bg"):
-                getattr(obj, op["f"])(None if op["c"] == "none" else op["c"])
-                attrs[op["f"]] = op["c"]
-            else:
-                getattr(obj, ATTR_METHOD[op["f"]])(op["b"])
-                attrs["at"] = [a for a in attrs["at"] if a != op["f"]] + ([op["f"]] if op["b"] else [])
+            try:
+                if op["f"] in ("fg", "bg"):
+                    getattr(obj, op["f"])(None if op["c"] == "none" else op["c"])
+                    attrs[op["f"]] = op["c"]
+                else:
+                    getattr(obj, ATTR_METHOD[op["f"]])(op["b"])
+                    attrs["at"] = [a for a in attrs["at"] if a != op["f"]] + ([op["f"]] if op["b"] else [])
+            except Exception as e:  # noqa
+                failed("hist-set", e)
             continue
-        way, col = op["way"], op["col"]
+        way, col, same = op["way"], op["col"], op.get("same", False)
         tag, msg = hist_msg(way, attrs)
-        ev = {"msg": msg, "base": [tag] if way == 3 else [], "col": col, "how": "hist-w%d%s" % (way, op.get("via", "")),
-              "res": "ok", "toks": []}
+        ev = {"msg": msg, "base": [tag] if way == 3 else [], "col": col, "claim": "all",
+              "how": "hist-w%d%s%s" % (way, "s" if same else "", op.get("via", "")), "res": "ok", "toks": []}
         try:
             cls = AnsiFormatter if col else PlainFormatter
             kw = {"forced": True} if col and op.get("via") else {}
+            key = (col, bool(op.get("via")))
             if way == 1:
-                f = cls(StyleSet([obj]), **kw)
+                f = cls(sset if same else StyleSet([obj]), **kw)
             else:
-                f = cls(StyleSet([]), **kw)
+                f = kept[key] if same and key in kept else cls(StyleSet([]), **kw)
+                kept[key] = f
                 if way == 2:
                     f.add_style(obj)
             target = BufferedIO(formatter=f) if op.get("via") else f
@@ -316,20 +385,21 @@ def case_of_history(rec):
         if h["op"] == "set":
             ops.append({"op": "set", "f": h["f"], "c": h["c"], "b": h["b"]})
         else:
-            ops.append({"op": "use", "way": h["way"], "col": h["col"]})
+            ops.append({"op": "use", "way": h["way"], "col": h["col"], "same": h["same"]})
     return {"part": "hist", "init": {"fg": first["fg"], "bg": first["bg"], "at": list(first["at"])}, "ops": ops}
 
 
 def random_history(rng, n):
     init = {"fg": rng.choice(COLOURS), "bg": rng.choice(COLOURS), "at": [a for a in ATTRS if rng.random() < 0.3]}
-    ops = [{"op": "use", "way": rng.randint(1, 3), "col": rng.random() < 0.7, "via": rng.choice(["", "/io"])}]
+    ops = [{"op": "use", "way": rng.randint(1, 3), "col": rng.random() < 0.7, "same": False, "via": rng.choice(["", "/io"])}]
     for _ in range(n):
         if rng.random() < 0.6:
             f = rng.choice(["fg", "bg"] + ATTRS)
             ops.append({"op": "set", "f": f, "c": rng.choice(COLOURS) if f in ("fg", "bg") else "", "b": rng.random() < 0.5})
         else:
-            ops.append({"op": "use", "way": rng.randint(1, 3), "col": rng.random() < 0.7, "via": rng.choice(["", "/io"])})
-    ops.append({"op": "use", "way": rng.randint(1, 3), "col": True, "via": ""})
+            ops.append({"op": "use", "way": rng.randint(1, 3), "col": rng.random() < 0.7, "same": rng.random() < 0.5,
+                        "via": rng.choice(["", "/io"])})
+    ops.append({"op": "use", "way": rng.randint(1, 3), "col": True, "same": rng.random() < 0.5, "via": ""})
     return {"part": "hist", "init": init, "ops": ops}
 
 
@@ -390,7 +460,7 @@ def run_markup(ctx, quick):
     # ---- (b) histories on one style object (use ; set ; [set ;] use ...)
     r = ctx.model(MSPEC, "MC_MarkupHist", "MC_MarkupHist_%s.cfg" % ctx.tier, name="markup: one style object, used - changed - used", workers=8)
     recs = G.ordered(T.emitted(r))
-    if len(recs) < 3000:
+    if len(recs) < 6000:
         raise T.MachineryError("MC_MarkupHist emitted only %d histories" % len(recs))
     nh_mis = 0
     for rec in recs:
@@ -439,28 +509,80 @@ def run_markup(ctx, quick):
         ctx.count()
         ctx.nontriv(("dfltmsg", i))
     # one formatter kept across several balanced messages (what a message leaves behind must not change the next)
-    for i in range(60 if quick else 600):
-        msgs = [random_message(ctx.rng, ctx.rng.randint(1, 8), balanced=True, names=("ta", "tb")) for _ in range(ctx.rng.randint(2, 5))]
-        traces.append(shared_formatter_trace(msgs))
-        cases.append({"part": "shared", "msgs": msgs})
+    for i in range(90 if quick else 900):
+        msgs = [random_message(ctx.rng, ctx.rng.randint(1, 8), balanced=ctx.rng.random() < 0.8, names=("ta", "tb"))
+                for _ in range(ctx.rng.randint(2, 6))]
+        # outside the family (tag-engine artefact, see the notes): a message ending in the escape \\< while a style is open
+        # from outside the message keeps its backslash - here: after an unbalanced message left a style open
+        dirty = False
+        for m in msgs:
+            if dirty and m and m[-1]["k"] == "esc":
+                m.append({"k": "t", "c": "1"})
+            dirty = dirty or not balanced_msg(m)
+        case = {"part": "shared", "msgs": msgs, "plain": i % 3 == 1, "outputs": i % 3 == 2}
+        traces.append(shared_formatter_trace(msgs, case["plain"], case["outputs"]))
+        cases.append(case)
+        ctx.count()
+    # routes on which no style is registered (NullFormatter, the default formatter of an Output, NullIO): all tags are text
+    for i in range(100 if quick else 1500):
+        msg = random_message(ctx.rng, ctx.rng.randint(1, 10), balanced=ctx.rng.random() < 0.8)
+        how = ctx.rng.choice(hows(False, "null"))
+        traces.append([render_event(msg, [], False, how)])
+        cases.append({"part": "a", "msg": msg, "base": [], "col": False, "how": how})
         ctx.count()
     return traces, cases
 
 
-def shared_formatter_trace(msgs):
-    from clikit.formatter import AnsiFormatter
+def shared_formatter_trace(msgs, plain=False, outputs=False):
+    """several messages through ONE formatter (plain=True: a PlainFormatter; outputs=True: through two outputs sharing
+    it, one on an ANSI-capable stream, one not).  After a message that is not balanced (it may leave styles open on the
+    formatter, or fail) only the text clauses are claimed for the following ones: what carries over from earlier
+    messages is C17's subject, the text of a balanced message must be right all the same."""
+    from clikit.api.io import Output
+    from clikit.formatter import AnsiFormatter, PlainFormatter
+    from clikit.io.output_stream import BufferedOutputStream
 
-    f = build(AnsiFormatter, [TAGS["ta"], TAGS["tb"]])
-    evs = []
+    f = build(PlainFormatter if plain else AnsiFormatter, [TAGS["ta"], TAGS["tb"]])
+    Rec = G._rec_class()
+    outs = {True: Output(Rec(BufferedOutputStream(), True), f), False: Output(Rec(BufferedOutputStream()), f)} if outputs else None
+    evs, claim = [], "all"
     for k, msg in enumerate(msgs):
-        col = k % 2 == 0
-        ev = {"msg": msg, "base": [], "col": col, "how": "shared-A." + ("format" if col else "rm_format"), "res": "ok", "toks": []}
+        col = k % 2 == 0 and not plain
+        how = "shared-%s%s." % ("P" if plain else "A", "/O" if outputs else "") + ("format" if col or plain and k % 2 == 0 else "rm_format")
+        ev = {"msg": msg, "base": [], "col": col, "how": how, "claim": claim, "res": "ok", "toks": []}
         try:
-            ev["toks"] = tokenise(f.format(markup(msg)) if col else f.remove_format(markup(msg)))
+            if outputs:
+                o = outs[col]
+                n = len(o.stream.data)
+                o.write(markup(msg))
+                r = "".join(o.stream.data[n:])
+            else:
+                r = f.format(markup(msg)) if how.endswith(".format") else f.remove_format(markup(msg))
+            ev["toks"] = tokenise(r)
         except Exception as e:  # noqa
             ev["res"] = type(e).__name__
         evs.append(ev)
+        if not balanced_msg(msg):
+            claim = "text"
     return evs
+
+
+def balanced_msg(msg):
+    """every close names the innermost open style, </> closes the innermost, nothing stays open (the driver must know
+    which of its own messages it built unbalanced - TLC re-decides with Markup!Balanced on every event)"""
+    st = []
+    for g in msg:
+        if g["k"] == "open":
+            st.append(g["tag"])
+        elif g["k"] == "close":
+            if not st or st[-1] != g["tag"]:
+                return False
+            st.pop()
+        elif g["k"] == "closeany":
+            if not st:
+                return False
+            st.pop()
+    return not st
 
 
 COLOURS = ["none", "black", "red", "green", "yellow", "blue", "magenta", "cyan", "white", "default", "light_gray", "dark_gray",
@@ -499,6 +621,8 @@ def random_message(rng, n, balanced, names=None, table=None):
         elif x < 0.80 and len(open_) < 4:
             t = pool[rng.choice(sorted(pool))] if (names or rng.random() < 0.6) else random_style(rng, False, "")
             msg.append({"k": "open", "tag": t})
+            if t["named"] and rng.random() < 0.15:
+                msg[-1]["up"] = True  # <TA>: tag names are case-insensitive
             open_.append(t)
         elif open_:
             if balanced or rng.random() < 0.7:
@@ -521,7 +645,7 @@ def replay_markup(case):
         return [way_event(case["way"], case["style"], case["msg"])]
     if case["part"] == "hist":
         return run_history(case)
-    return shared_formatter_trace(case["msgs"])
+    return shared_formatter_trace(case["msgs"], case.get("plain", False), case.get("outputs", False))
 
 
 # ================================================================== (c, d) line writers and indentation scopes
@@ -532,7 +656,7 @@ class Boom(Exception):
 # characters some libraries (str.splitlines) take for line boundaries - ordinary text for the line writers; TLA+ sees
 # them as stand-in symbols
 SEP = {"<CR>": "\r", "<VT>": "\x0b", "<FF>": "\x0c", "<FS>": "\x1c", "<GS>": "\x1d", "<RS>": "\x1e", "<NEL>": "\x85",
-       "<LS>": "\u2028", "<PS>": "\u2029"}
+       "<LS>": "\u2028", "<PS>": "\u2029", "U": "\u00e9"}     # + a non-ASCII letter (stand-in U)
 SEPINV = {v: k for k, v in SEP.items()}
 
 
@@ -578,7 +702,10 @@ class LineRunner(object):
         ev = dict(line_base("line"), name=name, raw="raw" in name, lines=[symbols(x) for x in lines])
         marks = [len(r.data) for r in s.recs]
         try:
-            getattr(recv, name)("\n".join(lines))
+            if name == "write(nl)":  # the same line through write(text, new_line=True)
+                recv.write("\n".join(lines), new_line=True)
+            else:
+                getattr(recv, name)("\n".join(lines))
         except Exception as e:  # noqa
             ev["res"] = type(e).__name__
         for k, r in enumerate(s.recs):
@@ -608,10 +735,18 @@ class LineRunner(object):
                 self.line(op["name"], op["lines"])
                 pos += 1
                 continue
-            # enter: a genuine with-block; an exceptional exit is a raise inside it
-            how, swallowed = None, False
+            # enter: a genuine with-block; an exceptional exit is a raise inside it.  A scope that cannot be created,
+            # or whose exit fails, is an observation (res), not a harness failure
             try:
-                with self.scope(op):
+                cm = self.scope(op)
+            except Exception as e:  # noqa
+                self.evs.append(dict(line_base("enter"), level=op["level"], mode=op["mode"], n=op["n"], ind=self.ind(),
+                                     res=type(e).__name__))
+                pos += 1
+                continue
+            how, swallowed, res = None, False, "ok"
+            try:
+                with cm:
                     self.evs.append(dict(line_base("enter"), level=op["level"], mode=op["mode"], n=op["n"], ind=self.ind()))
                     self.probe()
                     pos, how = self.go(ops, pos + 1)
@@ -620,8 +755,10 @@ class LineRunner(object):
                 swallowed = how == "exception"
             except Boom:
                 pass
+            except Exception as e:  # noqa
+                res = type(e).__name__
             if how is not None:
-                self.evs.append(dict(line_base("exit"), how=how, swallowed=swallowed, ind=self.ind()))
+                self.evs.append(dict(line_base("exit"), how=how, swallowed=swallowed, ind=self.ind(), res=res))
                 self.probe()
         return pos, None
 
@@ -630,7 +767,10 @@ def run_lines_case(case):
     cols = os.environ.get("COLUMNS")
     os.environ["COLUMNS"] = "80"
     try:
-        r = LineRunner(case["real"], case.get("probes", False))
+        try:
+            r = LineRunner(case["real"], case.get("probes", False))
+        except Exception as e:  # noqa
+            return [dict(line_base("new"), kind=case["real"]["kind"], res=type(e).__name__)]
         pos = 0
         while pos < len(case["ops"]):  # an exit without an open scope is skipped
             pos, _how = r.go(case["ops"], pos)
@@ -686,7 +826,12 @@ def run_lines(ctx, quick):
     reals = {}
     for kind in ("output", "section", "io", "iosec"):
         reals[kind] = [r for r, _dec in G.usable(G.realizations(kind, not quick), skipped)]
-        if not reals[kind]:
+    broken = G.broken_objects(skipped)
+    for b in broken:  # an object of the family that cannot be built is an observation, not a harness failure
+        traces.append([dict(line_base("new"), kind=b["real"]["kind"], res=b["cls"])])
+        cases.append({"part": "lines", "real": b["real"], "ops": [], "probes": False})
+    for kind in reals:
+        if not reals[kind] and not broken:
             raise T.MachineryError("no realization of kind %s" % kind)
     ctx.extra["line_realizations"] = {k: len(v) for k, v in reals.items()}
     ctx.model(LSPEC, "MC_OutputLines", "MC_OutputLines_bfs_%s.cfg" % ctx.tier, name="lines+scopes: state space", workers=8)
@@ -695,6 +840,8 @@ def run_lines(ctx, quick):
         n = mis = 0
         for nb, beh in enumerate(recs):
             rs = reals[beh["kind"]]
+            if not rs:
+                continue
             ops = ops_from_hist(beh)
             for r in (rs if per is None else [rs[(nb + j) % len(rs)] for j in range(min(per, len(rs)))]):
                 case = {"part": "lines", "real": r, "ops": ops, "probes": probes}
@@ -728,13 +875,15 @@ def run_lines(ctx, quick):
     # ---- code -> spec: every line writer found by reflection x text shapes x (no scope | one scope), every realization
     # 0, 1, 2+ trailing newlines; separator characters inside lines (only "\n" starts a new line)
     shapes = [["a"], ["a", "", "b\rc"], ["", "a"], [""], ["a", ""], ["x<1>", "a", "", ""], ["", "", ""],
-              ["\x0bd\x85\u2028e", "f\x0c\x1c\x1d\x1eg\u2029"]]
+              ["\x0bd\x85\u2028e", "f\x0c\x1c\x1d\x1eg\u2029"], ["\u00e9t\u00e9", "", "\u00e9"]]
     found = {}
     for kind, rs in sorted(reals.items()):
         for r in rs if not quick else G.spread(rs, 2):
             s = G.Subject(r)
-            ents = line_entries(s.cls)
+            ents = list(line_entries(s.cls))
             found.setdefault(s.cls.__name__, sorted(e["name"] for e in ents))
+            if s.io is None and any(e["name"] == "write" for e in G.entries(s.cls)):
+                ents.append({"name": "write(nl)"})  # an equivalent route: write(text, new_line=True)
             levels = ["io", "out", "err"] if s.io is not None else ["out"]
             for ent in ents:
                 ops = []
@@ -770,7 +919,7 @@ def run_lines(ctx, quick):
     ctx.rng.shuffle(progs2)
     limit = 1500 if quick else 60000
     ior = reals["io"] + reals["iosec"]
-    for i, (combo, hows_) in enumerate(progs2[:limit]):
+    for i, (combo, hows_) in enumerate(progs2[:limit] if ior else []):
         ops = [{"op": "enter", "level": lv, "mode": m, "n": n} for lv, m, n in combo] + [{"op": "exit", "how": h} for h in hows_]
         case = {"part": "lines", "real": ior[i % len(ior)], "ops": ops, "probes": True}
         traces.append(run_lines_case(case))
@@ -778,7 +927,7 @@ def run_lines(ctx, quick):
         ctx.count()
         ctx.nontriv(("nest", i))
     allr = [r for k in sorted(reals) for r in reals[k]]
-    for i in range(300 if quick else 5000):
+    for i in range((300 if quick else 5000) if allr else 0):
         r = allr[ctx.rng.randrange(len(allr))]
         ops = random_scope_ops(ctx.rng, r, ctx.rng.randint(3, 24))
         case = {"part": "lines", "real": r, "ops": ops, "probes": ctx.rng.random() < 0.5}
